@@ -131,3 +131,134 @@ theorem read_after_setInput (pre : List (Op D)) (d0 d' : D) :
   rw [run_eq_ref, ref_append]; rfl
 
 end Nitime.GrangerObj
+
+/-! ## Round 2 (L7): `_model` as a per-pair loop that may fail part-way (`Model/GrangerObj.lean`: `ObjK`, `loopK`, `runK`) -/
+
+namespace Nitime.GrangerObj
+section failing
+variable {D P F : Type} [DecidableEq P] (pairs : D → List P) (fit1 : D → P → Option F)
+
+/-- the local-accumulator loop (no skipping): completes with `k ++ l` iff every pair fits (`fitList = some l`);
+otherwise it stops -/
+theorem loopK_false_spec (d : D) (ps : List P) : ∀ k : List (P × F),
+    match fitList fit1 d ps with
+    | some l => loopK fit1 false d ps k = (k ++ l, true)
+    | none => (loopK fit1 false d ps k).2 = false := by
+  induction ps with
+  | nil => intro k; simp [fitList, loopK]
+  | cons p ps ih =>
+    intro k
+    simp only [fitList, loopK, Bool.false_and, Bool.false_eq_true, if_false]
+    cases hf : fit1 d p with
+    | none => simp
+    | some f =>
+      have := ih (k ++ [(p, f)])
+      cases hl : fitList fit1 d ps with
+      | none => simpa [hl] using this
+      | some l => simpa [hl] using this
+
+/-- nothing but declared one-time attributes: `kept` empty, `_model` absent or the fit of the current input -/
+def InvK (s : ObjK D P F) : Prop :=
+  s.kept = [] ∧ (s.model = none ∨ (s.model ≠ none ∧ s.model = fitList fit1 s.input (pairs s.input)))
+
+theorem readModelK_false_spec (s : ObjK D P F) (h : InvK pairs fit1 s) :
+    (readModelK pairs fit1 false s).2 = fitList fit1 s.input (pairs s.input) ∧
+    InvK pairs fit1 (readModelK pairs fit1 false s).1 ∧ (readModelK pairs fit1 false s).1.input = s.input := by
+  obtain ⟨hk, hm⟩ := h
+  unfold readModelK
+  rcases hm with hm | ⟨hne, hm⟩
+  · rw [hm]
+    have hs := loopK_false_spec fit1 s.input (pairs s.input) []
+    simp only [Bool.false_eq_true, if_false]
+    cases hl : fitList fit1 s.input (pairs s.input) with
+    | none =>
+      rw [hl] at hs
+      simp only at hs
+      simp [hs, InvK, hl]
+    | some l =>
+      rw [hl] at hs
+      simp only [List.nil_append] at hs
+      simp [hs, InvK, hl]
+  · cases hmod : s.model with
+    | none => exact absurd hmod hne
+    | some m =>
+      refine ⟨?_, ⟨hk, Or.inr ⟨hne, hm⟩⟩, rfl⟩
+      rw [← hm, hmod]
+
+/-- **failure histories.** With the local accumulator, ANY history of reads (failing or not) and `set_input`s answers
+every read as a fresh analyzer on the current input does. -/
+theorem runK_false_eq_refK_of_inv (ops : List (OpK D)) :
+    ∀ s : ObjK D P F, InvK pairs fit1 s → runK pairs fit1 false ops s = refK pairs fit1 ops s.input := by
+  induction ops with
+  | nil => intro s _; rfl
+  | cons o os ih =>
+    intro s h
+    cases o with
+    | setInput d =>
+      simp only [runK, stepK, refK]
+      have hi : InvK pairs fit1 (setInputK d s) := ⟨h.1, Or.inl rfl⟩
+      rw [ih _ hi]; rfl
+    | readModel =>
+      obtain ⟨e, i, ei⟩ := readModelK_false_spec pairs fit1 s h
+      simp only [runK, stepK, refK]
+      rw [ih _ i, e, ei]
+
+theorem runK_false_eq_refK (ops : List (OpK D)) (d : D) :
+    runK pairs fit1 false ops (constructK d : ObjK D P F) = refK pairs fit1 ops d :=
+  runK_false_eq_refK_of_inv pairs fit1 ops _ ⟨rfl, Or.inl rfl⟩
+
+def curK : List (OpK D) → D → D
+  | [], d => d
+  | .setInput d' :: os, _ => curK os d'
+  | _ :: os, d => curK os d
+
+omit [DecidableEq P] in
+theorem refK_append (os os' : List (OpK D)) (d : D) :
+    refK pairs fit1 (os ++ os') d = refK pairs fit1 os d ++ refK pairs fit1 os' (curK os d) := by
+  induction os generalizing d with
+  | nil => rfl
+  | cons o os ih => cases o <;> simp [refK, curK, ih]
+
+/-- **set_input after any failure history answers from the new input only.** Whatever was read before — including reads
+that raised after some pairs had been fitted — after `set_input(d')` the model is the per-pair fit of `d'`. -/
+theorem retarget_after_failed_fit_is_fresh_local (pre : List (OpK D)) (d0 d' : D) :
+    runK pairs fit1 false (pre ++ [.setInput d', .readModel]) (constructK d0 : ObjK D P F)
+      = refK pairs fit1 pre d0 ++ [.done, .model (fitList fit1 d' (pairs d'))] := by
+  rw [runK_false_eq_refK, refK_append]; rfl
+
+/-- the same for the discipline the SOURCE has (`keepPartial`, generated): holds because no instance attribute is written
+outside `__init__` / `set_input` and `_model`'s accumulator is a local — an edit that adds one re-opens this proof -/
+theorem retarget_after_failed_fit_is_fresh (pre : List (OpK D)) (d0 d' : D) :
+    runK pairs fit1 keepPartial (pre ++ [.setInput d', .readModel]) (constructK d0 : ObjK D P F)
+      = refK pairs fit1 pre d0 ++ [.done, .model (fitList fit1 d' (pairs d'))] := by
+  have hk : keepPartial = false := by decide
+  rw [hk]; exact retarget_after_failed_fit_is_fresh_local pairs fit1 pre d0 d'
+
+theorem runK_source_eq_refK (ops : List (OpK D)) (d : D) :
+    runK pairs fit1 keepPartial ops (constructK d : ObjK D P F) = refK pairs fit1 ops d := by
+  have hk : keepPartial = false := by decide
+  rw [hk]; exact runK_false_eq_refK pairs fit1 ops d
+
+end failing
+
+/-! ### counter-model: the `_fitted` survivor (seed C15-10) -/
+
+/-- two pairs `0, 1`; on input 0 pair 1 does not converge; a fit is tagged with the input it was computed from -/
+def cxFit (d p : Nat) : Option Nat := if d = 0 ∧ p = 1 then none else some (10 * d + p)
+
+/-- read (pair 0 fitted, pair 1 raises) — `set_input(1)` — read: with the surviving attribute pair 0 carries the fit of
+input 0 (`0`), a fresh analyzer on input 1 gives `10` -/
+theorem fitted_survivor_counterexample :
+    runK (fun _ => [0, 1]) cxFit true [.readModel, .setInput 1, .readModel] (constructK 0)
+      = [.model none, .done, .model (some [(0, 0), (1, 11)])] ∧
+    refK (fun _ => [0, 1]) cxFit [.readModel, .setInput 1, .readModel] 0
+      = [.model none, .done, .model (some [(0, 10), (1, 11)])] ∧
+    runK (fun _ => [0, 1]) cxFit false [.readModel, .setInput 1, .readModel] (constructK 0)
+      = [.model none, .done, .model (some [(0, 10), (1, 11)])] := ⟨rfl, rfl, rfl⟩
+
+/-- what IS true of the survivor discipline: as long as no read has failed it agrees with the reference -/
+theorem fitted_survivor_partial_example :
+    runK (fun _ => [0, 1]) cxFit true [.setInput 1, .readModel, .setInput 2, .readModel] (constructK 0)
+      = refK (fun _ => [0, 1]) cxFit [.setInput 1, .readModel, .setInput 2, .readModel] 0 := rfl
+
+end Nitime.GrangerObj
